@@ -618,6 +618,24 @@ func genCase(r *gen.Rand) tcase {
 		genGrouping(r, &e)
 		c.e = e
 		c.lhs = genVector(r, n, kind, dense)
+		if (e.aggOp == "sum" || e.aggOp == "avg") && len(c.lhs) >= 3 && r.Chance(1, 4) {
+			// cancelling large terms among small integers: only the compensation term of the
+			// Kahan-Neumaier sum keeps the small ones (all operations stay exact)
+			big := gen.Pick(r, []float64{0x1p60, 0x1p55, 0x1p70})
+			for i := range c.lhs {
+				c.lhs[i].F = float64(r.Range(-5, 5))
+			}
+			p := r.Intn(len(c.lhs))
+			q := r.Intn(len(c.lhs) - 1)
+			if q >= p {
+				q++
+			}
+			if r.Bool() {
+				big = -big
+			}
+			c.lhs[p].F, c.lhs[q].F = big, -big
+			c.corpus = "kahan-cancel"
+		}
 	case cls < 11: // topk / bottomk / limitk
 		e := exprT{kind: "agg", aggOp: gen.Pick(r, []string{"topk", "bottomk", "topk", "bottomk", "limitk"})}
 		e.param = gen.Pick(r, []float64{1, 2, 3, 1, 2, 2.5, 5, 0, -1, 0.5, 100, math.NaN(), math.Inf(1), math.Inf(-1), 1e19, 9223372036854775807})
@@ -776,6 +794,8 @@ func corpus() []tcase {
 		agg("max", 0, vals(nan, 1, nan), "max-nan"),
 		agg("min", 0, vals(nan, nan), "min-all-nan"),
 		agg("sum", 0, vals(0x1p1023, 0x1p1023, 0x1p1023), "sum-overflow"),
+		agg("sum", 0, vals(3, 0x1p60, 2, -0x1p60), "sum-kahan-neumaier"),
+		agg("avg", 0, vals(3, 0x1p60, 2, -0x1p60, 1), "avg-kahan-neumaier"),
 		agg("avg", 0, vals(0x1p1023, 0x1p1023, 0x1p1022, 0x1p1023), "avg-incremental-mean"),
 		agg("avg", 0, vals(1, inf, 3, -inf), "avg-inf"),
 		agg("stdvar", 0, vals(1, 2, 4, 8.5), "stdvar"),
@@ -789,6 +809,8 @@ func corpus() []tcase {
 		bin("*", "OneToMany", true, []string{"instance"}, nil, nil, fp(0), node, cpu, "group-right-fill-right"),
 		bin("-", "OneToMany", true, []string{"instance"}, nil, fp(5), fp(7), node, cpu, "group-right-fill-both"),
 		bin("*", "OneToMany", true, []string{"instance"}, nil, fp(1), fp(1), node, cpu, "group-right-fill-same"),
+		// the witness of C29_fill_group_right_refuted: documented 5 - 8 = -3, engine 7 - 8 = -1
+		bin("-", "OneToMany", true, []string{}, nil, fp(5), fp(7), nil, []smp{{L(), 8}}, "refuted-witness"),
 		bin("+", "OneToOne", false, []string{"method"}, nil, nil, nil, reqs, limits, "one-to-one-needs-group-left"),
 		bin("+", "ManyToOne", true, []string{"status"}, []string{"method"}, nil, nil, reqs, limits, "group-left-include-collapses"),
 		bin("==", "OneToOne", true, []string{"status"}, nil, nil, nil, limits, reqs, "dup-right"),
@@ -805,6 +827,51 @@ type desc struct {
 	Error  string   `json:"error,omitempty"`
 	Shape  string   `json:"shape"`
 	Corpus string   `json:"corpus,omitempty"`
+}
+
+// quantileZeroWeightInf: some group has an integral rank phi*(n-1) (interpolation weight 0) whose
+// upper neighbour values[min(n-1, rank+1)] is infinite while the value at the rank is not NaN:
+// the engine computes v*1 + Inf*0 = NaN instead of returning the value at that rank.
+func quantileZeroWeightInf(e exprT, v []smp) bool {
+	phi := e.param
+	if math.IsNaN(phi) || phi < 0 || phi > 1 {
+		return false
+	}
+	in := func(n string) bool {
+		for _, g := range e.grouping {
+			if g == n {
+				return true
+			}
+		}
+		return false
+	}
+	groups := map[string][]float64{}
+	for _, s := range v {
+		var k []lbl
+		for _, l := range s.L {
+			switch {
+			case !e.hasGroup || (!e.without && !in(l.N)):
+			case e.without && (in(l.N) || l.N == "__name__"):
+			default:
+				k = append(k, l)
+			}
+		}
+		groups[keyOf(k)] = append(groups[keyOf(k)], s.F)
+	}
+	for _, vals := range groups {
+		sort.Slice(vals, func(i, j int) bool { return math.IsNaN(vals[i]) && !math.IsNaN(vals[j]) || vals[i] < vals[j] })
+		n := float64(len(vals))
+		rank := phi * (n - 1)
+		if rank != math.Floor(rank) {
+			continue
+		}
+		lo := int(rank)
+		hi := int(math.Min(n-1, rank+1))
+		if math.IsInf(vals[hi], 0) && !math.IsNaN(vals[lo]) {
+			return true
+		}
+	}
+	return false
 }
 
 func feq(a, b *float64) bool {
@@ -841,6 +908,10 @@ func main() {
 				shape = "fill-group-right-swapped"
 				meta.Hit("shape:" + shape)
 			}
+		}
+		if c.e.aggOp == "quantile" && quantileZeroWeightInf(c.e, c.lhs) {
+			shape = "quantile-zero-weight-inf"
+			meta.Hit("shape:" + shape)
 		}
 		if o.err == "ErrOther" {
 			shape = "engine-error"
